@@ -1,7 +1,7 @@
 """C14 — user features act on exactly their cluster range with their value
 (+ the feature→mask allocation core that C04/C06 reuse)."""
 import os, struct, glob, json
-import vlib
+import vlib, gsubgen, bufgen, fontbuild
 
 MODULE = "RbModel.Props.C14"
 LEVEL = "proof"
@@ -1141,6 +1141,414 @@ def shared_search(ctx, shim, r):
 
 
 # ------------------------------------------------------------------------------------------------
+# fonts with EVERY kind of GSUB lookup under ranged features: 1 single, 2 multiple, 3 alternate, 4 ligature, 5 context and
+# 6 chaining context (formats 1 and 3, nested single / multiple lookups), 8 reverse chaining single (with empty and with
+# non-empty backtrack / lookahead coverages); optional GDEF classes with IgnoreMarks lookups.  Two lookup drivers exist in
+# the crate (apply_forward for types 1-7, apply_backward for lookups made of type 8 subtables) and every lookup type has
+# its own match code: "the feature acts on exactly the clusters of its range" has to hold for each of them.
+#
+# Oracle: the executable OpenType specification Spec/OpenTypeSubst.lean (`gsubspec` request of the model driver) run on
+# masks that are computed HERE from the meaning of the feature list, in a layout of the oracle's own (4 bits per feature of
+# the font, in tag order, from bit 4): glyph mask = the value every feature has at the glyph's cluster, lookup mask = the
+# fields of the features that reference the lookup.  So: a lookup acts at a position iff some referencing feature is on
+# for the CURRENT glyph, every glyph of an input / component sequence must carry the feature, backtrack / lookahead
+# glyphs need not (Spec.matchSeq), alternate #value.  Neither the crate's bit allocation nor its plan is consulted.
+
+FIELD = 4
+TYPED_KINDS = [1, 2, 3, 4, 5, 6, 8, 8]
+
+
+def typed_recipe(r, kinds=None):
+    """fontbuild recipe; chars U+E000+g-1 -> glyph g for every glyph ("pua"); texts use the NBASE base glyphs.
+    Targets of substitutions are fresh glyph ids, so the output tells which lookups acted where."""
+    on = r.sample(ON_TAGS, r.range(1, 2))
+    user = r.sample(USER_TAGS, r.range(2, 4))
+    tags = sorted(on + user, key=T)
+    nxt = [NBASE + 1]
+    def fresh():
+        nxt[0] += 1
+        return nxt[0] - 1
+    base, derived = list(range(1, NBASE + 1)), []
+    gdef = None
+    marks = []
+    if r.chance(1, 4):
+        marks = sorted(r.sample(base, r.range(1, 3)))
+        gdef = {"classes": {g: (3 if g in marks else 1) for g in base}}
+
+    def cov(kmin, kmax, nder=2):
+        c = r.sample(base, r.range(kmin, min(kmax, NBASE)))
+        if derived and nder:
+            c += r.sample(derived, r.range(0, min(nder, len(derived))))
+        return sorted(set(c))
+
+    def simple(kind, big=False):
+        """subtable of a single-position lookup (1 single, 2 multiple with >= 1 glyph, 3 alternate)"""
+        dom = cov(5 if big else 3, NBASE, 3)
+        if kind == 1:
+            sub = {"format": 2, "coverage": dom, "subst": [fresh() for _ in dom]}
+            derived.extend(sub["subst"])
+        elif kind == 2:
+            sub = {"coverage": dom, "sequences": [[fresh() for _ in range(r.choice([1, 2, 2, 3]))] for _ in dom]}
+            derived.extend(g for s_ in sub["sequences"] for g in s_)
+        else:
+            sub = {"coverage": dom, "alternates": [[fresh() for _ in range(r.choice([1, 2, 3, 3, 4]))] for _ in dom]}
+            derived.extend(g for s_ in sub["alternates"] for g in s_)
+        return sub
+
+    nl = r.range(3, 6)
+    kinds = list(kinds) if kinds else [r.choice(TYPED_KINDS) for _ in range(nl)]
+    nl = len(kinds)
+    ncontext = len([k for k in kinds if k in (5, 6)])
+    lookups, seqs = [], []
+    helper_at = nl                      # helpers (nested lookups) follow the main lookups
+    helpers = []
+    for li, kind in enumerate(kinds):
+        flag = 8 if (marks and kind != 4 and r.chance(1, 2)) else 0
+        if kind in (1, 2, 3):
+            sub = simple(kind)
+            if kind == 2 and r.chance(1, 10):
+                sub["sequences"][r.below(len(sub["sequences"]))] = []       # a deleting sequence
+        elif kind == 4:
+            firsts = sorted(r.sample(base, r.range(2, 4)))
+            sets = []
+            for g in firsts:
+                ligs = []
+                for _ in range(r.range(1, 2)):
+                    comps = [r.choice(base) for _ in range(r.choice([1, 1, 1, 2, 2, 0]))]
+                    ligs.append({"components": comps, "glyph": fresh()})
+                    seqs.append([g] + comps)
+                ligs.sort(key=lambda l: -len(l["components"]))
+                derived.extend(l["glyph"] for l in ligs)
+                sets.append(ligs)
+            sub = {"coverage": firsts, "ligsets": sets}
+        elif kind in (5, 6):
+            hi = helper_at + len(helpers)
+            helpers.append(None)          # filled below (the helper's targets are allocated after this lookup's)
+            def recs(ninput):
+                out = [(r.below(ninput), hi)]
+                if r.chance(1, 3):
+                    out.append((r.below(ninput + (1 if r.chance(1, 6) else 0)), hi))
+                return out
+            if r.chance(2, 3):
+                ins = [cov(4, NBASE) for _ in range(r.range(1, 3))]
+                sub = {"format": 3, "coverages": ins, "lookups": recs(len(ins))}
+                if kind == 6:
+                    sub["backtrack"] = [cov(3, NBASE) for _ in range(r.choice([0, 0, 1, 2]))]
+                    sub["lookahead"] = [cov(3, NBASE) for _ in range(r.choice([0, 0, 1, 2]))]
+            else:
+                firsts = sorted(r.sample(base, r.range(2, 5)))
+                sets = []
+                for g in firsts:
+                    rules = []
+                    for _ in range(r.range(1, 2)):
+                        inp = [r.choice(base) for _ in range(r.choice([0, 1, 1, 2]))]
+                        ru = {"input": inp, "lookups": recs(len(inp) + 1)}
+                        bt, la = [], []
+                        if kind == 6:
+                            bt = [r.choice(base) for _ in range(r.choice([0, 0, 1, 2]))]
+                            la = [r.choice(base) for _ in range(r.choice([0, 0, 1, 2]))]
+                            ru["backtrack"], ru["lookahead"] = bt, la
+                        seqs.append(list(reversed(bt)) + [g] + inp + la)
+                        rules.append(ru)
+                    sets.append(rules)
+                sub = {"format": 1, "coverage": firsts, "rulesets": sets}
+            helpers[hi - helper_at] = {"type": r.choice([1, 1, 1, 2]), "flag": 0, "subtables": None}
+        else:
+            dom = cov(3, NBASE, 3)
+            nb, na = (0, 0) if r.chance(1, 2) else (r.choice([0, 1, 1, 2]), r.choice([0, 1, 1, 2]))
+            sub = {"coverage": dom, "backtrack": [cov(3, NBASE) for _ in range(nb)],
+                   "lookahead": [cov(3, NBASE) for _ in range(na)], "subst": [fresh() for _ in dom]}
+            derived.extend(sub["subst"])
+        lookups.append({"type": kind, "flag": flag, "subtables": [sub]})
+    for h in helpers:
+        h["subtables"] = [simple(h["type"], big=True)]
+        lookups.append(h)
+    # references: a main lookup by 1-2 features (an alternate lookup by one: a shared alternate lookup is the recorded
+    # finding "breaks badly"), a helper by none (1 in 4: by one feature, then it also runs on its own)
+    refs = []
+    for li, lk in enumerate(lookups):
+        if li >= nl:
+            refs.append(r.sample(tags, 1) if r.chance(1, 4) else [])
+        elif lk["type"] == 3:
+            refs.append(r.sample(tags, 1))
+        else:
+            refs.append(r.sample(tags, [1, 1, 2, 2, 3][r.below(5)]))
+    # a contextual lookup that nests an alternate lookup would read the alternate index from its own (merged) mask: the
+    # helpers are never alternates, so every lookup mask of a multi-feature lookup only decides on / off
+    for t in tags:
+        if not any(t in x for x in refs[:nl]):
+            cand = [li for li in range(nl) if lookups[li]["type"] != 3] or list(range(nl))
+            li = r.choice(cand)
+            if lookups[li]["type"] == 3:
+                refs[li] = [t]
+            else:
+                refs[li].append(t)
+    features = [{"tag": t, "lookups": [li for li in range(len(lookups)) if t in refs[li]]} for t in tags]
+    rec = {"num_glyphs": nxt[0] + 1, "cmap": "pua", "gsub": {"features": features, "lookups": lookups},
+           "on": on, "user": user, "seqs": seqs}
+    if gdef is not None:
+        rec["gdef"] = gdef
+    return rec
+
+
+def typed_font(rec):
+    return fontbuild.build({k: v for k, v in rec.items() if k not in ("on", "user", "seqs")})
+
+
+def typed_text(r, rec, n=None):
+    """[(gid, cluster)]: random base glyphs, half of the time seeded with glyph sequences the font's ligatures / rules name"""
+    n = r.range(1, 6) if n is None else n
+    gl = []
+    if rec["seqs"] and r.chance(1, 2):
+        while len(gl) < n and r.chance(3, 4):
+            gl += r.choice(rec["seqs"])
+            if r.chance(1, 3): gl.append(1 + r.below(NBASE))
+    while len(gl) < n:
+        gl.insert(r.below(len(gl) + 1), 1 + r.below(NBASE))
+    gl = gl[:n]
+    k = r.below(8)
+    if k == 0:                          # clusters shared by neighbours
+        cl, c = [], 0
+        for _ in gl:
+            cl.append(c); c += r.choice([0, 1, 1])
+    elif k == 1:                        # sparse / shifted clusters
+        cl, c = [], r.below(3)
+        for _ in gl:
+            cl.append(c); c += r.choice([1, 1, 2])
+    else:
+        cl = list(range(len(gl)))
+    return list(zip(gl, cl))
+
+
+def typed_values(rec, feats, cluster):
+    """value of every feature of the font at a cluster: default (1 for the default-on tags of the shaper) overridden by the
+    entries that cover the cluster, in the order given (the lists of this stream never hold a ranged entry followed by a
+    global entry of the same tag — F2 / F3 —, so sequential override and HarfBuzz's globals-then-ranges order agree)"""
+    vals = {f["tag"]: (1 if f["tag"] in rec["on"] else 0) for f in rec["gsub"]["features"]}
+    for t, v, s, e in feats:
+        if t in vals and covers(s, e, cluster):
+            vals[t] = v
+    return vals
+
+
+def typed_spec_request(fid, rec, feats, text):
+    """the `gsubspec` request: planned lookups = every referenced lookup in lookup-list order, masks in the oracle's layout"""
+    tags = [f["tag"] for f in rec["gsub"]["features"]]
+    shift = {t: 4 + FIELD * i for i, t in enumerate(tags)}
+    maps = []
+    for li in range(len(rec["gsub"]["lookups"])):
+        m = 0
+        for f in rec["gsub"]["features"]:
+            if li in f["lookups"]:
+                m |= ((1 << FIELD) - 1) << shift[f["tag"]]
+        if m:
+            maps.append(f"{li} {m} 1 1 0 0")
+    info = []
+    for g, c in text:
+        vals = typed_values(rec, feats, c)
+        mask = 0
+        for t in tags:
+            mask |= min(vals[t], (1 << FIELD) - 1) << shift[t]
+        info.append((g, mask, c, 0, 7))
+    k = len(text)
+    st = {"L": 0, "F": 0, "M": max(64 * k, 16384), "O": max(1024 * k, 16384), "h": 0, "s": 0, "i": 0, "n": k,
+          "o": 0, "I": info, "U": [(0, 0, 0, 0, 0)] * k}
+    return (f"gsubspec {fid} l DFLT - - 1 FONT {gsubgen.flatten(rec)} MAPS {len(maps)} " + " ".join(maps)
+            + f" BUF {bufgen.state_str(st)}"), st
+
+
+def typed_shape_request(fid, facts, rec, feats, text):
+    """`map shape` with the whole GSUB/GDEF of the font in the lookup segment (the crate reads the real font, the model this)"""
+    return (f"map shape {fid} ; {facts} ; G {gsubgen.flatten(rec)} ; " + " ".join(f"{T(t)}:{v}:{s}:{e}" for t, v, s, e in feats)
+            + " ; " + " ".join(f"{0xE000 + g - 1}:{g}:{c}" for g, c in text))
+
+
+def no_f2f3(feats):
+    return not any(feats[j][0] == feats[k][0] and (feats[j][2], feats[j][3]) != (0, U32) and (feats[k][2], feats[k][3]) == (0, U32)
+                   for j in range(len(feats)) for k in range(j + 1, len(feats)))
+
+
+def typed_feature_lists(r, rec, n, nrandom):
+    """(1) EXHAUSTIVE: every feature of the font × every (start, end) ∈ {0..n+1, 2^32-1}² × value (0 and 2 for a default-on
+    feature, 1 and — every third range — 3 for an optional one); (2) random lists of 1-3 entries, values 0-3."""
+    P = list(range(0, n + 2)) + [U32]
+    out = []
+    for f in rec["gsub"]["features"]:
+        t = f["tag"]
+        k = 0
+        for s in P:
+            for e in P:
+                k += 1
+                if t in rec["on"]:
+                    out.append([(t, 0, s, e)])
+                    if k % 3 == 0: out.append([(t, 2, s, e)])
+                else:
+                    out.append([(t, 1, s, e)])
+                    if k % 3 == 0: out.append([(t, 3, s, e)])
+    tags = [f["tag"] for f in rec["gsub"]["features"]]
+    for _ in range(nrandom):
+        while True:
+            fl = []
+            for _ in range(r.range(1, 3)):
+                s, e = r.choice([(0, U32), (r.below(n + 1), r.below(n + 2)), (r.below(n + 1), r.below(n + 2)), (r.below(n + 1), U32)])
+                t = r.choice(tags) if r.chance(14, 15) else "zzzz"
+                fl.append((t, r.choice([0, 1, 1, 2, 3]), s, e))
+            if no_f2f3(fl):
+                break
+        out.append(fl)
+    return out
+
+
+def typed_cases(ctx, shim, r, nfonts, nrandom, prefix="Y"):
+    """[(font id, recipe, register line, facts, [(features, text)])]"""
+    import C06 as _c06
+    tags = DEFAULT_TAGS + [T(t) for t in USER_TAGS] + [T("zzzz")]
+    recs = []
+    while len(recs) < nfonts:
+        rec = typed_recipe(r)
+        try:
+            recs.append((rec, typed_font(rec).hex()))
+        except fontbuild.FontBuildError:
+            continue
+    regs = [f"map fonthex {prefix}{i} {h}" for i, (_, h) in enumerate(recs)]
+    facts = vlib.run_groups(shim, [[reg, f"map facts {prefix}{i} - - " + ",".join(map(str, tags))] for i, reg in enumerate(regs)])
+    out = []
+    for i, ((rec, _), reg, fo) in enumerate(zip(recs, regs, facts)):
+        n = r.choice([3, 4])
+        tex = typed_text(r, rec, n)
+        tex = [(g, c) for c, (g, _) in enumerate(tex)]          # the exhaustive part: clusters 0..n-1
+        cases = [(f, tex) for f in typed_feature_lists(r, rec, n, 0)]
+        for _ in range(nrandom):
+            t2 = typed_text(r, rec)
+            nmax = max(c for _, c in t2) + 1
+            cases.append((typed_feature_lists(r, rec, nmax, 1)[-1], t2))
+        out.append((f"{prefix}{i}", rec, reg, fo[1], cases))
+    return out
+
+
+def typed_groups(cases):
+    """the `map shape` request groups of the cases (one group per font, the register line first)"""
+    return [[reg] + [typed_shape_request(fid, facts, rec, feats, text) for feats, text in cs] for fid, rec, reg, facts, cs in cases]
+
+
+def classify_typed(ln, out):
+    if not ln.startswith("map shape"):
+        return ["register"]
+    segs = ln.split(" ; ")
+    text = segs[4].split()
+    ks = ["shape"]
+    if out.startswith("ok") and text:
+        gids = [t.split(":")[1] for t in text]
+        og = [t.split(":")[0] for t in out.split()[2:]]
+        ks.append("shape:substituted" if og != gids else "shape:unchanged")
+        if len(og) > len(gids): ks.append("shape:grew")
+        if len(og) < len(gids): ks.append("shape:shrank")
+    if out.startswith("panic"): ks.append("shape:panic")
+    if any(f.split(":")[2:] != ["0", str(U32)] for f in segs[3].split()): ks.append("shape:ranged-features")
+    return ks
+
+
+def growth_then_later_index(rec):
+    """Does a contextual rule of the font apply a GROWING nested lookup (multiple substitution, a sequence of >= 2 glyphs) and
+    then a record with a greater sequence index?  The crate (like HarfBuzz, apply_lookup: "Recursed lookup changed buffer
+    len. Adjust.") makes the inserted glyphs part of the matched sequence, so the later index counts them; the executable
+    specification Spec/OpenTypeSubst.lean::applyRecords keeps counting the original input glyphs.  The two readings differ
+    there (nothing to do with feature ranges): such fonts are not judged against the specification — they stay in the
+    feature-shape-gsub correspondence, where the interpreter model follows the crate."""
+    lookups = rec["gsub"]["lookups"]
+    def grows(li):
+        return (li < len(lookups) and lookups[li]["type"] == 2
+                and any(len(q) >= 2 for st in lookups[li]["subtables"] for q in st["sequences"]))
+    def bad(recs):
+        return any(grows(l1) and i2 > i1 for k, (i1, l1) in enumerate(recs) for (i2, _) in recs[k + 1:])
+    for lk in lookups:
+        if lk["type"] not in (5, 6):
+            continue
+        for st in lk["subtables"]:
+            if st["format"] == 3:
+                if bad(st["lookups"]): return True
+            else:
+                for rs in st.get("rulesets") or []:
+                    for ru in rs or []:
+                        if bad(ru["lookups"]): return True
+    return False
+
+
+def typed_search(ctx, shim, model, cases):
+    import C06 as _c06
+    g_shape, g_spec, meta = typed_groups(cases), [], []
+    for fid, rec, reg, facts, cs in cases:
+        lm, mm = ["map fonthex - 00"], []
+        for feats, text in cs:
+            sreq, st = typed_spec_request(fid, rec, feats, text)
+            lm.append(sreq); mm.append(st)
+        g_spec.append(lm); meta.append(mm)
+    a = vlib.run_groups(shim, g_shape, timeout=600)
+    b = vlib.run_groups(model, g_spec, timeout=600)
+    n = indom = bad = acted = ranged_hit = ndrift = 0
+    by_type, devs = {}, []
+    for (fid, rec, reg, facts, cs), ls, lm, mm, xs, ys in zip(cases, g_shape, g_spec, meta, a, b):
+        kinds = sorted({lk["type"] for lk in rec["gsub"]["lookups"]})
+        drift = growth_then_later_index(rec)
+        for (feats, text), req, sreq, st, x, y in zip(cs, ls[1:], lm[1:], mm, xs[1:], ys[1:]):
+            n += 1
+            ok, cmpcl = _c06.in_spec_domain(rec, st)
+            if drift:
+                ndrift += 1
+            if not ok or drift or not y.startswith("ok "):
+                continue
+            if not x.startswith("ok "):
+                bad += 1
+                if bad <= 3:
+                    ctx.violation(f"shape() with user features {feats} on a generated GSUB font does not return normally: {x[:200]}",
+                                  {"stage": "search", "stream": "feature-shape-typed", "class": "crash", "api": "shape", "features": [list(f) for f in feats],
+                                   "text": [list(t) for t in text], "lines": [reg, req], "observed": x})
+                continue
+            indom += 1
+            got = [tuple(int(v) for v in e.split(":")) for e in x.split()[2:]]
+            t = y.split()
+            want = [] if len(t) < 3 or t[2] == "-" else [tuple(int(v) for v in e.split(":")) for e in t[2].split(",")]
+            if [g for g, _ in got] != [g for g, _ in text]:
+                acted += 1
+                if any((s, e) != (0, U32) and any(covers(s, e, c) for _, c in text) and not all(covers(s, e, c) for _, c in text)
+                       for _, _, s, e in feats):
+                    ranged_hit += 1
+                for k in kinds: by_type[k] = by_type.get(k, 0) + 1
+            same = (got == want) if cmpcl else ([p[0] for p in got] == [p[0] for p in want])
+            if not same:
+                bad += 1
+                devs.append((len(rec["gsub"]["lookups"]), len(feats), len(text), bad, rec, reg, feats, text, req, sreq, x, want, cmpcl))
+    devs.sort(key=lambda d: d[:4])
+    for _, _, _, _, rec, reg, feats, text, req, sreq, x, want, cmpcl in devs[:3]:
+        # the smallest fonts / feature lists / texts of the run are reported
+        exp = "ok %d" % len(want) + "".join(f" {g}:{c}" for g, c in want)
+        lts = [(li, lk["type"], [f["tag"] for f in rec["gsub"]["features"] if li in f["lookups"]])
+               for li, lk in enumerate(rec["gsub"]["lookups"])]
+        ctx.violation(f"user features did not act on exactly their cluster ranges with their values: features {feats} "
+                      f"(default-on {rec['on']}) on glyphs {[g for g, _ in text]} clusters {[c for _, c in text]} → {x}; "
+                      f"the OpenType model under the per-cluster feature values gives {exp} "
+                      f"(font lookups (index, type, features): {lts})",
+                      {"stage": "search", "stream": "feature-shape-typed", "class": "other", "api": "shape",
+                       "features": [list(f) for f in feats], "text": [list(t) for t in text], "lines": [reg, req],
+                       "spec_request": sreq, "default_on": rec["on"], "lookups": lts,
+                       "recipe": {k: v for k, v in rec.items() if k != "seqs"},
+                       "expected": exp, "observed": x, "clusters_compared": cmpcl})
+    ctx.note_search("feature-shape-typed", n, acted, in_domain=indom, deviations=bad, substituted=acted,
+                    not_judged_growth_then_later_sequence_index=ndrift,
+                    substituted_under_partial_range=ranged_hit, substituted_by_font_lookup_types=by_type, fonts=len(cases),
+                    rule="generated GSUB(/GDEF) fonts with lookups of types 1, 2, 3, 4, 5, 6 (formats 1 and 3, nested single / multiple "
+                         "lookups) and 8 (reverse chaining, with and without backtrack / lookahead), 1-2 default-on and 2-4 optional "
+                         "features, lookups referenced by 1-3 features, through the public shape(); per font EVERY (start, end) ∈ "
+                         "{0..n+1, 2^32-1}² for every feature on a text of n = 3-4 clusters (value 0 / 2 for default-on, 1 / 3 for "
+                         "optional features) plus random lists of 1-3 entries on texts of 1-6 glyphs (shared and sparse clusters). "
+                         "Oracle: Spec.applyAll (Spec/OpenTypeSubst.lean) over all referenced lookups in lookup-list order with glyph "
+                         "and lookup masks computed from the per-cluster feature values in the oracle's own bit layout; judged on the "
+                         "specification's domain of unambiguity, and not on fonts where a contextual rule applies a growing nested "
+                         "lookup and then a record with a greater sequence index (counted; the specification model and HarfBuzz read "
+                         "that index differently); non-trivial = some glyph was substituted")
+
+
+# ------------------------------------------------------------------------------------------------
 
 META_TAGS = ["init", "medi", "fina", "isol", "med2", "fin2", "fin3", "rlig", "liga", "calt", "ccmp", "kern", "mark", "mkmk", "locl",
              "rclt", "clig", "akhn", "half", "pres", "abvs", "blws", "psts", "haln", "ljmo", "vjmo", "tjmo", "curs", "dist", "cjct",
@@ -1240,24 +1648,51 @@ def metamorphic_search(ctx, shim, r, ncases):
                          "absent tags; a ranged feature alone vs the same behind 4-39 absent tags with wide values; non-trivial = the global feature changes the shaping result")
 
 
+def synth_view(rec):
+    """what the metamorphic search reads off a generated font: shared_recipe fonts (single / alternate lookups) and
+    typed_recipe fonts (all lookup types)"""
+    if "gsub" in rec:
+        ff = [(f["tag"], list(f["lookups"])) for f in rec["gsub"]["features"]]
+        hexf, lk = typed_font(rec).hex(), "G " + gsubgen.flatten(rec)
+        kinds = {li: lk_["type"] for li, lk_ in enumerate(rec["gsub"]["lookups"])}
+    else:
+        ff = [(tag_str(t), list(ls)) for t, ls in rec["features"]]
+        hexf, lk = build_font(rec).hex(), " ".join(lookup_tokens(rec))
+        kinds = {li: (1 if k == "s" else 3) for li, (k, _) in enumerate(rec["lookups"])}
+    shared = []
+    for li in sorted(kinds):
+        ts = [t for t, ls in ff if li in ls]
+        if len(ts) >= 2:
+            shared.append((li, kinds[li], ts))
+    return {"hex": hexf, "lk": lk, "features": ff, "ftags": [t for t, _ in ff], "shared": shared, "on": rec["on"],
+            "types": sorted(set(kinds.values()))}
+
+
 def metamorphic_synth(ctx, shim, r, nfonts, per):
     """the same consequences on generated fonts whose features share lookups (alternate lookups unshared), default shaper:
     the feature under test and the features of the base list reference common lookups, so the mask of a shared lookup is
-    the union of masks that differ between the two sides of each relation (own bits vs the global bit vs no bits)."""
+    the union of masks that differ between the two sides of each relation (own bits vs the global bit vs no bits).
+    Every second font has lookups of ALL types (typed_recipe: multiple, ligature, context, chaining context, reverse
+    chaining — the second lookup driver), the others single / alternate lookups only."""
     tags = DEFAULT_TAGS + [T(t) for t in USER_TAGS] + [T("zzzz")] + [T("zz%02d" % j) for j in range(50)] + \
            [T(x % j) for x in ("0a%02d", "A%03d", "zy%02d") for j in range(24)]
-    recs = [shared_recipe(r, share_alt=False) for _ in range(nfonts)]
-    regs = [f"map fonthex M{i} {build_font(rec).hex()}" for i, rec in enumerate(recs)]
+    recs = [typed_recipe(r) if i % 2 else shared_recipe(r, share_alt=False) for i in range(nfonts)]
+    views = [synth_view(rec) for rec in recs]
+    regs = [f"map fonthex M{i} {v['hex']}" for i, v in enumerate(views)]
     facts = vlib.run_groups(shim, [[reg, f"map facts M{i} - - " + ",".join(map(str, tags))] for i, reg in enumerate(regs)])
     U = U32
     groups, meta = [], []
-    for i, (rec, reg) in enumerate(zip(recs, regs)):
-        ftags = [tag_str(t) for t, _ in rec["features"]]
-        lk = " ".join(lookup_tokens(rec))
+    for i, (rec, vw, reg) in enumerate(zip(recs, views, regs)):
+        ftags = vw["ftags"]
+        lk = vw["lk"]
         lines, trip = [reg], []
         for _ in range(per):
-            n = r.range(1, 6)
-            text = [(1 + r.below(NBASE), c) for c in range(n)]
+            if "gsub" in rec:
+                text = [(g, c) for c, (g, _) in enumerate(typed_text(r, rec))]
+                n = len(text)
+            else:
+                n = r.range(1, 6)
+                text = [(1 + r.below(NBASE), c) for c in range(n)]
             base = []               # distinct tags: the same tag ranged and then global is the known finding F2 / F3
             for t in r.sample(ftags, min(r.range(0, 3), len(ftags) - 1)):
                 s_, e_ = r.choice([(0, U), (0, n), (r.below(n + 1), n), (r.below(n + 1), r.below(n + 2))])
@@ -1265,7 +1700,7 @@ def metamorphic_synth(ctx, shim, r, nfonts, per):
             free = [t for t in ftags if t not in {b[0] for b in base}]
             # prefer a tag that shares a lookup with a tag of the base list (or with a default-on tag)
             busy = {b[0] for b in base} | set(rec["on"])
-            near = [t for t in free if any(t in ts and any(x in busy and x != t for x in ts) for _, _, ts in shared_lookups(rec))]
+            near = [t for t in free if any(t in ts and any(x in busy and x != t for x in ts) for _, _, ts in vw["shared"])]
             tag = r.choice(near) if near and r.chance(3, 4) else r.choice(free)
             v = r.choice([0, 1, 1, 2, 3])
             k, k2 = r.below(n + 1), r.below(n + 1)
@@ -1288,12 +1723,12 @@ def metamorphic_synth(ctx, shim, r, nfonts, per):
             for name, f in variants.items():
                 idx[name] = len(lines)
                 lines.append(shape_request(f"M{i}", facts[i][1], lk, f, text))
-            trip.append((rec, tag, v, idx, variants, text))
+            trip.append((vw, tag, v, idx, variants, text))
         groups.append(lines); meta.append(trip)
     outs = vlib.run_groups(shim, groups, timeout=900)
     total = nontriv = bad = 0
     for trip, g, o in zip(meta, groups, outs):
-        for rec, tag, v, idx, variants, text in trip:
+        for vw, tag, v, idx, variants, text in trip:
             total += 1
             get = lambda name: o[idx[name]]
             if get("global") != get("none"):
@@ -1307,19 +1742,20 @@ def metamorphic_synth(ctx, shim, r, nfonts, per):
                     if bad <= 3:
                         ctx.violation(f"user feature range semantics on a font whose features share lookups: {b} differs from {a} "
                                       f"for feature {tag}={v}: {variants[b]} → {get(b)} but {variants[a]} → {get(a)} "
-                                      f"(font: features → lookups {[(tag_str(t), l) for t, l in rec['features']]}, default-on {rec['on']})",
+                                      f"(font: features → lookups {vw['features']}, default-on {vw['on']}, lookup types {vw['types']})",
                                       {"stage": "search", "stream": "feature-metamorphic", "class": cls + ":synthetic:shared-lookup-font",
                                        "generator": "shared-lookups", "lines": [g[0], g[idx[a]], g[idx[b]]],
                                        "features_a": variants[a], "features_b": variants[b], "text": [list(x) for x in text],
-                                       "font_features": [(tag_str(t), l) for t, l in rec["features"]], "default_on": rec["on"],
-                                       "shared_lookups": shared_lookups(rec), "result_a": get(a), "result_b": get(b)})
+                                       "font_features": vw["features"], "default_on": vw["on"], "lookup_types": vw["types"],
+                                       "shared_lookups": vw["shared"], "result_a": get(a), "result_b": get(b)})
                     break
     ctx.note_search("feature-metamorphic-shared", total * 9, nontriv, relation_cases=total, deviations=bad, fonts=nfonts,
                     rule="the metamorphic relations (global vs full range vs over-long range; none vs empty range vs range beyond the "
-                         "text vs absent tags; ranged alone vs behind 4-23 absent tags) on generated fonts whose single-substitution "
-                         "lookups are referenced by 2-3 features, with a base list of 0-3 further user features (values 0-3, any "
-                         "range) and a feature under test that shares a lookup with a base / default-on feature in 3 of 4 cases; "
-                         "non-trivial = the global feature changes the result")
+                         "text vs absent tags; ranged alone vs behind 4-23 absent tags) on generated fonts whose lookups are referenced "
+                         "by 2-3 features — every second font with lookups of all GSUB types (multiple, ligature, context, chaining "
+                         "context, reverse chaining; typed_recipe), the others with single / alternate lookups —, with a base list of "
+                         "0-3 further user features (values 0-3, any range) and a feature under test that shares a lookup with a base / "
+                         "default-on feature in 3 of 4 cases; non-trivial = the global feature changes the result")
 
 
 def run(ctx):
@@ -1334,6 +1770,11 @@ def run(ctx):
         "spaces, quotes, CSS forms and malformed strings are covered by the feature-parse correspondence only",
         "shapers with their own feature hooks (Arabic, Indic, USE, …) add features through the same builder; their op lists are not "
         "modelled (map-compile drives the builder with arbitrary op lists instead)",
+        "C14_reverse_lookup_respects_mask / _acts_inside_range are about the lookup-interpreter model Gsub.lean (apply_string → "
+        "apply_backward, ReverseChainSingleSubst); FeatureGsub.lean composes the feature map model with that interpreter (default "
+        "shaper, LTR, private-use text, every GSUB lookup type) and is tied to the public shape() by the feature-shape-gsub "
+        "correspondence; that the forward driver honours the masks for lookup types 2 and 4-6 is checked by that correspondence and "
+        "by the feature-shape-typed search against Spec/OpenTypeSubst.lean, not proved",
     ]
     ctx.regen()
     ctx.prove(MODULE)
@@ -1362,6 +1803,9 @@ def run(ctx):
 
     e2e_search(ctx, shim, ctx.rng("e2e"))
     shared_search(ctx, shim, ctx.rng("shared"))
+    tc = typed_cases(ctx, shim, ctx.rng("typed"), ctx.budget(30, 200), ctx.budget(60, 300))
+    typed_search(ctx, shim, vlib.build_model(), tc)
+    ctx.correspond("feature-shape-gsub", groups=typed_groups(tc), classify=classify_typed)
     metamorphic_search(ctx, shim, ctx.rng("meta"), ctx.budget(600, 2128))
     metamorphic_synth(ctx, shim, ctx.rng("meta-shared"), ctx.budget(30, 200), ctx.budget(40, 150))
 
@@ -1383,4 +1827,10 @@ def replay(ctx, rp):
     if rp.get("class") == "shared-alternate-lookup":
         print("intended:", rp.get("intended"))
         return 1 if o != rp.get("intended") else 0
+    if rp.get("stream") == "feature-shape-typed":
+        if "spec_request" in rp:
+            print("spec    :", vlib.run_lines(vlib.build_model(), [rp["spec_request"]], nproc=1)[0])
+        if rp.get("clusters_compared") is False:        # a deleting lookup: glyph ids only
+            gids = lambda x: [t.split(":")[0] for t in x.split()[2:]]
+            return 0 if gids(o) == gids(rp["expected"]) else 1
     return 0 if (matches_q(o, rp.get("expected")) or matches_q(o, rp.get("expected_alt"))) else 1
